@@ -140,6 +140,11 @@ fn edit(dir: &Path, op: &Value, serial: usize) {
         }
         "rmschema" => fs::remove_file(dir.join("schema.graphql")).unwrap(),
         "gc" => {}
+        "batch" => {
+            for (i, e) in op["edits"].as_array().unwrap().iter().enumerate() {
+                edit(dir, e, serial * 10 + i);
+            }
+        }
         other => panic!("harness: unknown op {other}"),
     }
 }
